@@ -197,7 +197,30 @@ def gen(run):
                     'ideal': exp, 'obs': got, 'kind': 'gen'}
             run.judge(case, False, clause=f'{form} over {contents(rec["blk"])} = {got}, the fold over the numeric cells gives {exp}', part='gen')
     logic(run)
+    count_dates(run)
     public_path(run, recs)
+
+
+def count_dates(run):
+    """COUNT counts dates like numbers, and the count does not depend on how the cells are mentioned: as one area, as single cells, as an
+    area plus single cells (each mention counts once). Row 1 holds number, text, date, blank, date-time, TRUE, number, date."""
+    import datetime
+    row = [5, 'x', datetime.datetime(2024, 3, 1), None, datetime.datetime(2024, 3, 1, 12, 30), True, 2.5, datetime.datetime(1999, 12, 31)]
+    forms = ['=COUNT(A1:H1)', '=COUNT(C1)', '=COUNT(C1:C1)', '=COUNT(A1:B1,C1,D1:H1)', '=COUNT(A1:H1,C1)', '=COUNT(A1,B1,C1,D1,E1,F1,G1,H1)', '=COUNT(E1,H1)',
+             '=COUNT(A1:D1)+COUNT(E1:H1)', '=COUNT(I1)', '=COUNT(A1:H1,I1)']
+    want = [5, 1, 1, 5, 6, 5, 2, 5, 1, 6]
+    for mode in ('workbook', 'overrides'):
+        consts = {(c, 0): v for c, v in enumerate(row) if v is not None}
+        consts[(8, 0)] = '=DATE(2024,1,31)'
+        if mode == 'workbook':
+            res = repo.Probe(forms, consts).eval()
+        else:
+            res = repo.Probe(forms, {(8, 0): '=DATE(2024,1,31)'}).eval([(0, c, 0, v) for c, v in enumerate(row) if v is not None])
+        for f, w, r in zip(forms, want, res):
+            ok = r[0] == 'val' and r[1] == w and not isinstance(r[1], bool)
+            run.judge({'in': {'formula': f, 'row': [str(v) for v in row], 'mode': mode, 'f': 'COUNT'}, 'ideal': w, 'obs': show(*r), 'kind': 'count_dates'}, ok,
+                      clause=f'{f} over A1..H1 = {[str(v) for v in row]} ({mode}; I1 = DATE(2024,1,31)) = {show(*r)}, expected {w}', part='count_dates')
+            run.traces_validated += 1
 
 
 def logic(run):
@@ -417,6 +440,9 @@ def check(run):
 
 def replay(run, case):
     i = case['in']
+    if case.get('kind') == 'count_dates':
+        count_dates(run)
+        return
     setup(run, i.get('R', 2))
     if case.get('kind') == 'logic':
         out = _logic_job([{'vs': i['vs']}])[0]
